@@ -3,6 +3,7 @@ Stage B/E: the final assembly of `Linearizer::linearize` — sorted variable lis
 coefficient extraction — as semantic facts about the emitted `LinModel`.
 -/
 import Rooc.Proofs.LinAffineModel
+import Rooc.Proofs.LinSem
 
 set_option linter.unusedSectionVars false
 set_option linter.unusedSimpArgs false
@@ -223,6 +224,32 @@ structure DomRel (m : Model (Ext K)) (d : List (DomVar (Ext K))) : Prop where
   tight : ∀ ρ : String → K, DomSat ρ d → DomSat ρ m.domain
   /-- … and loses no source-feasible point (C07). -/
   sound : ∀ ρ : String → K, srcFeasible m ρ = true → DomSat ρ d
+  /-- every used declared variable of the model is still declared (and used) in `d`. -/
+  names : ∀ dv ∈ m.domain, dv.usage > 0 → inScope d dv.name
+
+theorem constraintHolds_congr {c : Constraint (Ext K)} {ρ ρ' : String → K}
+    (h : ∀ x, (x ∈ varsOf c.lhs ∨ x ∈ varsOf c.rhs) → ρ' x = ρ x) :
+    constraintHolds ρ' c = constraintHolds ρ c := by
+  have e1 := eval_congr (ρ := ρ) (ρ' := ρ') c.lhs (fun x hx => h x (Or.inl hx))
+  have e2 := eval_congr (ρ := ρ) (ρ' := ρ') c.rhs (fun x hx => h x (Or.inr hx))
+  simp only [constraintHolds, e1, e2]
+
+/-- source feasibility only reads declared, used variables. -/
+theorem srcFeasible_congr {m : Model (Ext K)} {d : List (DomVar (Ext K))}
+    (hscope : ∀ c ∈ m.constraints, ∀ x, (x ∈ varsOf c.lhs ∨ x ∈ varsOf c.rhs) → inScope d x)
+    (hnames : ∀ dv ∈ m.domain, dv.usage > 0 → inScope d dv.name) {ρ ρ' : String → K}
+    (h : ∀ v, inScope d v → ρ' v = ρ v) : srcFeasible m ρ' = true ↔ srcFeasible m ρ = true := by
+  rw [srcFeasible_iff, srcFeasible_iff]
+  have hc : ∀ c ∈ m.constraints, constraintHolds ρ' c = constraintHolds ρ c := fun c hc =>
+    constraintHolds_congr (fun x hx => h x (hscope c hc x hx))
+  have hd : DomSat ρ' m.domain ↔ DomSat ρ m.domain := by
+    constructor
+    · intro hs dv hdv hu; have := hs dv hdv hu; rwa [h _ (hnames dv hdv hu)] at this
+    · intro hs dv hdv hu; have := hs dv hdv hu; rwa [← h _ (hnames dv hdv hu)] at this
+  rw [hd]
+  constructor
+  · rintro ⟨h1, h2⟩; exact ⟨fun c hcm => by rw [← hc c hcm]; exact h1 c hcm, h2⟩
+  · rintro ⟨h1, h2⟩; exact ⟨fun c hcm => by rw [hc c hcm]; exact h1 c hcm, h2⟩
 
 theorem rows_all_iff (ρ : String → K) (vars : List String) (new : List (MidRow (Ext K)))
     (hok : ∀ row ∈ new, RowOK row) (hscope : ∀ row ∈ new, ∀ x ∈ row.lhs.map (·.1), x ∈ vars) :
